@@ -156,7 +156,7 @@ class Operand(ABC):
                 DirectNumericValue(-self.value.int if self.value.is_negative() else self.value.int)
             )
 
-        if self.value.is_address() and old_value.is_explicit_direct():
+        if (self.value.is_address() or self.value.is_address_expression()) and old_value.is_explicit_direct():
             return DirectOperand(self.operand_string, self.instruction, value=self.value)
 
         return ExtendedOperand(self.operand_string, self.instruction, value=self.value)
